@@ -321,7 +321,7 @@ def fault_cases(draw, max_faults=2):
         "allow_missing": draw(st.booleans()),
         "allow_extra": draw(st.booleans()),
         "entry": draw(st.sampled_from(["from_df", "from_df", "set_values_from_df", "set_values_from_df", "csv", "excel"])),
-        "dup_index": draw(st.sampled_from([False, False, True])),
+        "dup_index": draw(st.booleans()),
     }
 
 
@@ -413,7 +413,9 @@ class Combos(Facet):
                     faults = [{"kind": k, "pos": p, "pos2": p + 1, "dim": i, "other_value": bool(i % 2)} for i, (k, p) in enumerate(zip(ks, ps))]
                     for am in (False, True):
                         for ae in (False, True):
-                            yield {"universe": U, "letters": letters, "layout": lay, "faults": faults, "allow_missing": am, "allow_extra": ae, "entry": "from_df" if (am + ae) % 2 else "set_values_from_df"}
+                            for dup_index in ((False, True) if r == 2 else (ps[0] % 2 == 1,)):
+                                yield {"universe": U, "letters": letters, "layout": lay, "faults": faults, "allow_missing": am, "allow_extra": ae,
+                                       "entry": "from_df" if (am + ae) % 2 else "set_values_from_df", "dup_index": dup_index}
 
     def run(self, desc):
         return run_fault_case(desc)
